@@ -202,7 +202,7 @@ func RunCheck(o CheckOpts) *CheckResult {
 	known := map[string]KnownFinding{}
 	for _, k := range kf.Open {
 		if k.Property == o.Prop {
-			known[k.Obligation] = k
+			known[stripInstance(k.Obligation)] = k
 		}
 	}
 	seenKnown := map[string]bool{}
@@ -223,10 +223,10 @@ func RunCheck(o CheckOpts) *CheckResult {
 			res.BySolver[ob.Result.Solver]++
 			continue
 		}
-		if k, isKnown := known[ob.Name]; isKnown {
+		if k, isKnown := known[stripInstance(ob.Name)]; isKnown {
 			res.Known = append(res.Known, ob)
-			if !seenKnown[ob.Name] {
-				seenKnown[ob.Name] = true
+			if !seenKnown[stripInstance(ob.Name)] {
+				seenKnown[stripInstance(ob.Name)] = true
 				res.KnownLines = append(res.KnownLines, fmt.Sprintf("KNOWN-FINDING: property=%s %s [%s]", o.Prop, k.WhatFails, ob.Name))
 			}
 			continue
